@@ -22,7 +22,8 @@ from . import _c35_nft as NFT
 
 ID = "C35"
 LEAN_MODULES = ["NiftyVerif.Props.C35", "NiftyVerif.Model.LinOpsProto", "NiftyVerif.Model.Response",
-                "NiftyVerif.Model.ResponseLos", "NiftyVerif.Model.Nft", "NiftyVerif.Model.NftProto"]
+                "NiftyVerif.Model.ResponseLos", "NiftyVerif.Model.Nft", "NiftyVerif.Model.NftProto",
+                "NiftyVerif.Model.ResponseProto", "NiftyVerif.Core.Proto"]
 DRIVER = "Driver/C35.lean"
 TRANSLATORS = []
 OBLIGATIONS = ["NiftyVerif.C35." + t for t in (
